@@ -672,40 +672,112 @@ func rootGlobal(v ssa.Value) *ssa.Global {
 	return nil
 }
 
+// limitLoads counts, transitively through statically resolved module callees,
+// the atomic loads of the limit a call of f performs (2 = "two or more").
+func (m *concModel) limitLoads(f *ssa.Function, seen map[*ssa.Function]bool) int {
+	if f == nil || f.Blocks == nil || seen[f] {
+		return 0
+	}
+	seen[f] = true
+	defer delete(seen, f)
+	n := 0
+	for _, ci := range core.Calls(f) {
+		h := ci.Common().StaticCallee()
+		if h == nil {
+			continue
+		}
+		if h.Pkg != nil && h.Pkg.Pkg.Path() == "sync/atomic" && strings.HasPrefix(h.Name(), "Load") {
+			n++
+		} else if core.InMod(h) {
+			n += m.limitLoads(h, seen)
+		}
+	}
+	return n
+}
+
+// isLimitSnapshot: v is the result of an atomic load, directly or through a
+// wrapper whose every return is that load.
+func (m *concModel) isLimitSnapshot(v ssa.Value) bool {
+	call, ok := v.(*ssa.Call)
+	if !ok {
+		return false
+	}
+	h := call.Call.StaticCallee()
+	if h == nil {
+		return false
+	}
+	if h.Pkg != nil && h.Pkg.Pkg.Path() == "sync/atomic" && strings.HasPrefix(h.Name(), "Load") {
+		return true
+	}
+	if core.InMod(h) && h.Blocks != nil {
+		rs := core.Returns(h)
+		for _, r := range rs {
+			if len(r.Results) != 1 || !m.isLimitSnapshot(r.Results[0]) {
+				return false
+			}
+		}
+		return len(rs) > 0
+	}
+	return false
+}
+
 // R06.6 single snapshot
-var ruleSnapshot = &core.Rule{ID: "R06.6", Min: 4,
-	Doc: "each detection entry performs exactly one atomic load of the limit and one walk, entirely inside one read-lock region; Extend's write region contains no call and no loop",
+var ruleSnapshot = &core.Rule{ID: "R06.6", Min: 6,
+	Doc: "each detection entry performs, on the whole path to the walk (helpers included), exactly one atomic load of the limit and one walk; the walk is called with the read lock held and does not lock by itself, so the whole descent sees one tree state; Extend's write region contains no call and no loop",
 	Run: func(c *core.Ctx, s *core.Sink) {
 		m := getConc(c)
 		_, _, regions := m.lockset(c)
 		walk := findWalk(c)
+		// the walk must rely on its caller's lock: one region for the whole descent
+		s.Check(m.requires[walk] == 1, core.FName(walk)+": whole descent inside the caller's read region", c.Pos(walk.Pos()), "walk requires R from its callers and never locks itself",
+			"the walk takes or releases the tree lock by itself (per level): one detection can read the children of different levels from different tree states, a result that no instant of the tree would produce")
+		nEntries := 0
 		for _, f := range m.fs {
-			if !exportedAPI(f) {
+			if !exportedAPI(f) || f.Signature.Recv() != nil {
 				continue
 			}
+			if !reachesFn(f, walk, map[*ssa.Function]bool{}) {
+				continue
+			}
+			nEntries++
+			loads := m.limitLoads(f, map[*ssa.Function]bool{})
+			s.Check(loads == 1, core.FName(f)+": one limit snapshot per detection", c.Pos(f.Pos()), "1 atomic load on the path to the walk",
+				fmt.Sprintf("%d atomic loads of the limit are executed by one detection (helpers included): the input may be cut under one limit and judged under another when SetLimit runs in between", loads))
 			var walks []ssa.CallInstruction
-			loads := 0
 			for _, ci := range core.Calls(f) {
 				if ci.Common().StaticCallee() == walk {
 					walks = append(walks, ci)
 				}
-				if h := ci.Common().StaticCallee(); h != nil && h.Pkg != nil && h.Pkg.Pkg.Path() == "sync/atomic" && strings.HasPrefix(h.Name(), "Load") {
-					loads++
-				}
 			}
 			if len(walks) == 0 {
+				// delegates to another entry: fine as long as the total is one snapshot (checked above)
 				continue
 			}
-			s.Check(len(walks) == 1 && loads == 1, core.FName(f)+": one limit snapshot, one walk", c.Pos(f.Pos()), "1 atomic load, 1 walk call",
-				fmt.Sprintf("%d atomic loads of the limit and %d walk calls in one detection: the result may mix two limits / two tree states", loads, len(walks)))
-			// the limit passed to the walk is that load
+			s.Check(len(walks) == 1, core.FName(f)+": one walk per detection", c.Pos(f.Pos()), "1 walk call", fmt.Sprintf("%d walk calls", len(walks)))
 			for _, w := range walks {
 				arg := w.Common().Args[len(w.Common().Args)-1]
-				call, ok := arg.(*ssa.Call)
-				isLoad := ok && call.Call.StaticCallee() != nil && call.Call.StaticCallee().Pkg != nil && call.Call.StaticCallee().Pkg.Pkg.Path() == "sync/atomic"
-				s.Check(isLoad, core.FName(f)+": walk receives the snapshot", c.Pos(w.Pos()), "limit argument is the atomic load", "the limit handed to the walk is not the value of the single atomic load")
+				s.Check(m.isLimitSnapshot(arg), core.FName(f)+": walk receives the snapshot", c.Pos(w.Pos()), "limit argument is the atomic load", "the limit handed to the walk is not the value of the single atomic load")
+				// lock state at the call
+				held := regions[f][w.Block()]
+				for _, x := range w.Block().Instrs {
+					if x == ssa.Instruction(w) {
+						break
+					}
+					if name, deferred := m.muCall(x); name != "" && !deferred {
+						switch name {
+						case "RLock":
+							held = 1
+						case "Lock":
+							held = 2
+						case "RUnlock", "Unlock":
+							held = 0
+						}
+					}
+				}
+				s.Check(held >= 1, core.FName(f)+": walk called with the read lock held", c.Pos(w.Pos()), "lock state "+lockName(held), "the walk is entered without the tree lock")
 			}
 		}
+		s.Check(nEntries >= 2, "detection entries found", "-", fmt.Sprint(nEntries), "fewer than two exported detection entries reach the walk")
 		// writer regions: blocks with state W contain no call other than append/mutex and no back edge
 		for _, f := range m.fs {
 			for b, stt := range regions[f] {
